@@ -607,7 +607,10 @@ def readInto (h0 : Header) (text : Str) : Except Exc Geo := do
 /-- `mulgrid(filename)` with default constructor arguments -/
 def read (text : Str) : Except Exc Geo := readInto {} text
 
-/-! ### writing -/
+/-! ### writing
+
+  `geo.write(...)` calls in order: every function below returns the list of lines written
+  (each with its `'\n'`); the file is their concatenation. -/
 
 def lineOf (fs : List FieldSpec) (vals : List Val) : Except Exc Str := do
   let s ← writeValues fs vals
@@ -615,14 +618,24 @@ def lineOf (fs : List FieldSpec) (vals : List Val) : Except Exc Str := do
 
 def kwLine (s : Str) : Str := s ++ ['\n']
 
+def kwVertices : Str := ['V', 'E', 'R', 'T', 'I', 'C', 'E', 'S']
+def kwGrid : Str := ['G', 'R', 'I', 'D']
+def kwConnections : Str := ['C', 'O', 'N', 'N', 'E', 'C', 'T', 'I', 'O', 'N', 'S']
+def kwLayers : Str := ['L', 'A', 'Y', 'E', 'R', 'S']
+def kwSurfa : Str := ['S', 'U', 'R', 'F', 'A']
+def kwWells : Str := ['W', 'E', 'L', 'L', 'S']
+
 def writeHeader (sp : Specs) (h : Header) : Except Exc Str :=
   lineOf sp.header (sp.headerNames.map h.get)
 
-def writeNodes (sp : Specs) (s : Rat) (ns : List GNode) : Except Exc Str := do
-  let ls ← ns.mapM fun n => lineOf sp.node [.str (ljust n.name 3), (n.x.div s).toVal, (n.y.div s).toVal]
-  pure (kwLine "VERTICES".toList ++ ls.flatten ++ ['\n'])
+def nodeLine (sp : Specs) (s : Rat) (n : GNode) : Except Exc Str :=
+  lineOf sp.node [.str (ljust n.name 3), (n.x.div s).toVal, (n.y.div s).toVal]
 
-def writeColumn (sp : Specs) (s : Rat) (c : GColumn) : Except Exc Str := do
+def writeNodes (sp : Specs) (s : Rat) (ns : List GNode) : Except Exc (List Str) := do
+  let ls ← ns.mapM (nodeLine sp s)
+  pure (kwLine kwVertices :: ls ++ [['\n']])
+
+def columnLines (sp : Specs) (s : Rat) (c : GColumn) : Except Exc (List Str) := do
   let centre ← (if c.centreSpecified != 0 then
       match c.centre with
       | .at x y => pure [(x.div s).toVal, (y.div s).toVal]
@@ -631,34 +644,46 @@ def writeColumn (sp : Specs) (s : Rat) (c : GColumn) : Except Exc Str := do
     else pure [.none, .none] : Except Exc (List Val))
   let l ← lineOf sp.column ([.str (ljust c.name 3), .int c.centreSpecified, .int c.nodes.length] ++ centre)
   let nl ← c.nodes.mapM fun n => lineOf sp.columnNode [.str (ljust n 3)]
-  pure (l ++ nl.flatten)
+  pure (l :: nl)
 
-def writeColumns (sp : Specs) (s : Rat) (cs : List GColumn) : Except Exc Str := do
-  let ls ← cs.mapM (writeColumn sp s)
-  pure (kwLine "GRID".toList ++ ls.flatten ++ ['\n'])
+def writeColumns (sp : Specs) (s : Rat) (cs : List GColumn) : Except Exc (List Str) := do
+  let ls ← cs.mapM (columnLines sp s)
+  pure (kwLine kwGrid :: ls.flatten ++ [['\n']])
 
-def writeConnections (sp : Specs) (ks : List (Str × Str)) : Except Exc Str := do
-  let ls ← ks.mapM fun k => lineOf sp.connection [.str (ljust k.1 3), .str (ljust k.2 3)]
-  pure (kwLine "CONNECTIONS".toList ++ ls.flatten ++ ['\n'])
+def connectionLine (sp : Specs) (k : Str × Str) : Except Exc Str :=
+  lineOf sp.connection [.str (ljust k.1 3), .str (ljust k.2 3)]
 
-def writeLayers (sp : Specs) (s : Rat) (ls : List GLayer) : Except Exc Str := do
-  let out ← ls.mapM fun l => lineOf sp.layer [.str (ljust l.name 3), (l.bottom.div s).toVal, (l.centre.div s).toVal]
-  pure (kwLine "LAYERS".toList ++ out.flatten ++ ['\n'])
+def writeConnections (sp : Specs) (ks : List (Str × Str)) : Except Exc (List Str) := do
+  let ls ← ks.mapM (connectionLine sp)
+  pure (kwLine kwConnections :: ls ++ [['\n']])
 
-def writeSurface (sp : Specs) (s : Rat) (cs : List GColumn) : Except Exc Str := do
-  let out ← (cs.filter fun c => !c.defaultSurface).mapM fun c =>
-    match c.surface with
-    | some z => lineOf sp.surface [.str (ljust c.name 3), (z.div s).toVal]
-    | none => .error .typeError
-  pure (kwLine "SURFA".toList ++ out.flatten ++ ['\n'])
+def layerLine (sp : Specs) (s : Rat) (l : GLayer) : Except Exc Str :=
+  lineOf sp.layer [.str (ljust l.name 3), (l.bottom.div s).toVal, (l.centre.div s).toVal]
 
-def writeWells (sp : Specs) (s : Rat) (ws : List GWell) : Except Exc Str := do
-  let out ← ws.mapM fun w => w.pos.mapM fun p =>
-    lineOf sp.well [.str w.name, (p.1.div s).toVal, (p.2.1.div s).toVal, (p.2.2.div s).toVal]
-  pure (kwLine "WELLS".toList ++ (out.map List.flatten).flatten ++ ['\n'])
+def writeLayers (sp : Specs) (s : Rat) (ls : List GLayer) : Except Exc (List Str) := do
+  let out ← ls.mapM (layerLine sp s)
+  pure (kwLine kwLayers :: out ++ [['\n']])
 
-/-- `mulgrid.write`: the text of the file -/
-def write (g : Geo) : Except Exc Str := do
+def surfaceLine (sp : Specs) (s : Rat) (c : GColumn) : Except Exc Str :=
+  match c.surface with
+  | some z => lineOf sp.surface [.str (ljust c.name 3), (z.div s).toVal]
+  | none => .error .typeError
+
+def writeSurface (sp : Specs) (s : Rat) (cs : List GColumn) : Except Exc (List Str) := do
+  let out ← (cs.filter fun c => !c.defaultSurface).mapM (surfaceLine sp s)
+  pure (kwLine kwSurfa :: out ++ [['\n']])
+
+def wellLine (sp : Specs) (s : Rat) (name : Str) (p : Flt × Flt × Flt) : Except Exc Str :=
+  lineOf sp.well [.str name, (p.1.div s).toVal, (p.2.1.div s).toVal, (p.2.2.div s).toVal]
+
+def wellLines (sp : Specs) (s : Rat) (w : GWell) : Except Exc (List Str) := w.pos.mapM (wellLine sp s w.name)
+
+def writeWells (sp : Specs) (s : Rat) (ws : List GWell) : Except Exc (List Str) := do
+  let out ← ws.mapM (wellLines sp s)
+  pure (kwLine kwWells :: out.flatten ++ [['\n']])
+
+/-- the lines `mulgrid.write` writes -/
+def writeLines (g : Geo) : Except Exc (List Str) := do
   let sp ← specs
   let s ← unitScale g.hdr.unitType       -- (the attribute unit_scale set by set_unit_type)
   let h ← writeHeader sp g.hdr
@@ -666,9 +691,14 @@ def write (g : Geo) : Except Exc Str := do
   let c ← writeColumns sp s g.columns
   let k ← writeConnections sp g.connections
   let l ← writeLayers sp s g.layers
-  let sf ← (if g.columns.all (·.defaultSurface) then pure [] else writeSurface sp s g.columns : Except Exc Str)
-  let w ← (if g.wells.length > 0 then writeWells sp s g.wells else pure [] : Except Exc Str)
-  pure (h ++ n ++ c ++ k ++ l ++ sf ++ w ++ ['\n'])
+  let sf ← (if g.columns.all (·.defaultSurface) then pure [] else writeSurface sp s g.columns : Except Exc (List Str))
+  let w ← (if g.wells.length > 0 then writeWells sp s g.wells else pure [] : Except Exc (List Str))
+  pure (h :: (n ++ c ++ k ++ l ++ sf ++ w ++ [['\n']]))
+
+/-- `mulgrid.write`: the text of the file -/
+def write (g : Geo) : Except Exc Str := do
+  let ls ← writeLines g
+  pure ls.flatten
 
 /-! ### derived name lists -/
 
@@ -803,5 +833,214 @@ def blockConnectionNameList (g : Geo) : Except Exc (List (Str × Str)) :=
       | [] => pure []
       | _ => blockNameList g : Except Exc (List Str))
     connLoop g names.head? l0 (connSurfaces g) 0 l0 r
+
+/-! ### what a written file carries: the canonical form of a geometry
+
+  `canonGeo g` is the geometry with every number replaced by the decimal its text field holds
+  (two decimals, wells one, header sizes three significant digits) — in file units, i.e. divided
+  by the unit scale before rounding and multiplied back after — with unspecified column centres
+  recomputed as centroids of the rounded nodes, layer tops from the rounded bottoms, default
+  surfaces at the rounded ground level and `num_layers` recounted.  `Props/C03.lean` proves
+  `read (write g) = canonGeo g` for well-formed `g`. -/
+
+def Flt.isNeg : Flt → Bool
+  | .q r => decide (r < 0)
+  | .negZero => true
+def Flt.absNum : Flt → Nat
+  | .q r => r.num.natAbs
+  | .negZero => 0
+def Flt.den : Flt → Nat
+  | .q r => r.den
+  | .negZero => 1
+
+/-- the float `float(text)` gives for the decimal `±m·10^e` (a zero keeps its sign) -/
+def ofDec (neg : Bool) (m : Nat) (e : Int) : Flt :=
+  if m = 0 then (if neg then .negZero else .q 0)
+  else .q (scale10 (if neg then -(m : Int) else (m : Int)) e)
+
+/-- `float('%.{p}f' % x)`: `x` rounded half-even to `p` decimals -/
+def roundF (p : Nat) (x : Flt) : Flt :=
+  ofDec x.isNeg (roundHalfEven (x.absNum * 10 ^ p) x.den) (-(p : Int))
+
+/-- `float('%.{p}e' % x)`: `x` rounded half-even to `p+1` significant digits -/
+def roundE (p : Nat) (x : Flt) : Flt :=
+  ofDec x.isNeg (fmtEParts p x.absNum x.den).1 ((fmtEParts p x.absNum x.den).2 - p)
+
+/-- a coordinate after the trip through the file: to file units, `p` decimals, back -/
+def canonC (p : Nat) (s : Rat) (x : Flt) : Flt := (roundF p (x.div s)).mul s
+
+/-- the field specifications the theorems are proved for (`Proofs.GeoFile.specs_eq` checks, by
+    evaluation, that the table regenerated from /repo is exactly this one) -/
+def fS (w : Nat) : FieldSpec := { raw := Nat.toDigits 10 w, width := w, left := false, prec := none, typ := 's' }
+def fD (w : Nat) : FieldSpec := { raw := Nat.toDigits 10 w, width := w, left := false, prec := none, typ := 'd' }
+def fF (p : Nat) : FieldSpec := { raw := ['1', '0', '.'] ++ Nat.toDigits 10 p, width := 10, left := false, prec := some p, typ := 'f' }
+def fE : FieldSpec := { raw := ['1', '0', '.', '2'], width := 10, left := false, prec := some 2, typ := 'e' }
+def SP : Specs :=
+  { headerNames := ["type", "_convention", "_atmosphere_type", "atmosphere_volume", "atmosphere_connection",
+                    "_unit_type", "gdcx", "gdcy", "cntype", "permeability_angle", "_block_order_int"],
+    header := [fS 5, fD 1, fD 1, fE, fE, fS 5, fF 2, fF 2, fD 1, fF 2, fD 2],
+    node := [fS 3, fF 2, fF 2], column := [fS 3, fD 1, fD 2, fF 2, fF 2], columnNode := [fS 3],
+    connection := [fS 3, fS 3], layer := [fS 3, fF 2, fF 2], surface := [fS 3, fF 2],
+    well := [fS 5, fF 1, fF 1, fF 1] }
+
+/-- the formatted value is not wider than its field (else `fit_value` reduces the precision or raises) -/
+def fitsB (f : FieldSpec) (v : Val) : Bool :=
+  match fmtVal f v with
+  | .ok s => decide (s.length ≤ f.width)
+  | .error _ => false
+
+/-- `x` (in metres) fits its ten columns with `p` decimals after division by the unit scale -/
+def fitsC (p : Nat) (s : Rat) (x : Flt) : Bool := fitsB (fF p) (x.div s).toVal
+
+def canonHeader (h : Header) : Header :=
+  { h with atmosVolume := roundE 2 h.atmosVolume, atmosConnection := roundE 2 h.atmosConnection,
+           gdcx := h.gdcx.map (roundF 2), gdcy := h.gdcy.map (roundF 2), permAngle := roundF 2 h.permAngle,
+           blockOrder := h.blockOrderInt.map Int.toNat, extra := [] }
+
+def canonNode (s : Rat) (n : GNode) : GNode := { n with x := canonC 2 s n.x, y := canonC 2 s n.y }
+
+def canonLayer (s : Rat) (l : GLayer) : GLayer :=
+  { l with bottom := canonC 2 s l.bottom, centre := canonC 2 s l.centre, top := .q 0 }
+
+def canonLayers (s : Rat) (ls : List GLayer) : List GLayer :=
+  match ls.map (canonLayer s) with
+  | [] => []
+  | l0 :: r => layerTops l0.bottom (l0 :: r)
+
+/-- positions of the named nodes -/
+def nodePositions (ns : List GNode) (names : List Str) : List (Rat × Rat) :=
+  (names.filterMap (lookupNode ns)).map fun n => (n.x.toRat, n.y.toRat)
+
+def centroidCentre (ns : List GNode) (names : List Str) : Centre :=
+  if names.isEmpty then .none
+  else match polygonCentroid (nodePositions ns names) with
+    | some (x, y) => .at (.q x) (.q y)
+    | none => .nan
+
+def canonColumn (s : Rat) (nodes' : List GNode) (layers' : List GLayer) (c : GColumn) : GColumn :=
+  let surface' : Option Flt :=
+    if c.defaultSurface then layers'.head?.map (·.bottom) else c.surface.map (canonC 2 s)
+  { c with
+    centre := (if c.centreSpecified != 0 then
+        match c.centre with
+        | .at x y => .at (canonC 2 s x) (canonC 2 s y)
+        | o => o
+      else centroidCentre nodes' c.nodes),
+    surface := surface',
+    numLayers := (if c.defaultSurface then (layers'.length : Int) - 1
+      else match surface' with
+        | some z => columnNumLayers layers' z
+        | none => 0) }
+
+def canonWell (s : Rat) (w : GWell) : GWell :=
+  { w with pos := w.pos.map fun p => (canonC 1 s p.1, canonC 1 s p.2.1, canonC 1 s p.2.2) }
+
+/-- the unit scale of a geometry (1 for anything but `'FEET '`) -/
+def scaleOf (g : Geo) : Rat := match unitScale g.hdr.unitType with
+  | .ok s => s
+  | .error _ => 1
+
+def canonGeo (g : Geo) : Geo :=
+  let s := scaleOf g
+  let nodes' := g.nodes.map (canonNode s)
+  let layers' := canonLayers s g.layers
+  { hdr := canonHeader g.hdr, nodes := nodes', columns := g.columns.map (canonColumn s nodes' layers'),
+    connections := g.connections, layers := layers', wells := g.wells.map (canonWell s) }
+
+/-! ### well-formedness: the hypotheses of the round-trip theorems (all decidable) -/
+
+/-- blanks, then a non-empty core that neither starts nor ends with whitespace -/
+def coreOK (n : Str) : Bool :=
+  let core := n.dropWhile (· == ' ')
+  match core.head?, core.getLast? with
+  | some a, some b => !isStrWs a && !isStrWs b
+  | _, _ => false
+
+def noNewline (n : Str) : Bool := n.all fun c => c != '\n' && c != '\r'
+
+/-- a right-justified name of exactly `L` characters -/
+def nameOK (L : Nat) (n : Str) : Bool := n.length == L && coreOK n && noNewline n
+
+def headerOK (h : Header) : Bool :=
+  h.type == ['G', 'E', 'N', 'E', 'R'] &&
+  decide (0 ≤ h.convention ∧ h.convention ≤ 3) && decide (0 ≤ h.atmosType ∧ h.atmosType ≤ 9) &&
+  (h.unitType == [] || h.unitType == feet) &&
+  fitsB fE h.atmosVolume.toVal && fitsB fE h.atmosConnection.toVal &&
+  (match h.gdcx with | some x => fitsB (fF 2) x.toVal | none => true) &&
+  (match h.gdcy with | some x => fitsB (fF 2) x.toVal | none => true) &&
+  (match h.cntype with | some i => decide (0 ≤ i ∧ i ≤ 9) | none => true) &&
+  fitsB (fF 2) h.permAngle.toVal &&
+  (match h.blockOrderInt with | some i => i == 0 || i == 1 | none => true) &&
+  h.blockOrder == h.blockOrderInt.map Int.toNat &&
+  h.extra.isEmpty
+
+/-- the centre the reader gives layer number `i` when the field is blank or zero -/
+def defaultCentre (above : Option GLayer) (b : Flt) : Flt :=
+  match above with
+  | some a => (b.add a.bottom).mul (1 / 2)
+  | none => b
+
+/-- every layer centre survives: its written decimal is non-zero, or the default the reader
+    substitutes for a zero is the very same float (KNOWN FINDING `layer-centre-zero-recomputed`
+    when this fails) -/
+def layerCentresKeptAux (s : Rat) : Option GLayer → List GLayer → Bool
+  | _, [] => true
+  | above, l :: r =>
+    let c := roundF 2 (l.centre.div s)
+    let l' := canonLayer s l
+    (c.truthy || defaultCentre above l'.bottom == c.mul s) && layerCentresKeptAux s (some l') r
+
+def LayerCentresKept (g : Geo) : Bool := layerCentresKeptAux (scaleOf g) none g.layers
+
+/-- the rounded polygon of a column is not clockwise (else the reader reverses its nodes) -/
+def orientationOK (nodes' : List GNode) (c : GColumn) : Bool :=
+  decide (0 ≤ polygonArea (nodePositions nodes' c.nodes))
+
+def columnOK (L : Nat) (s : Rat) (g : Geo) (nodes' : List GNode) (c : GColumn) : Bool :=
+  nameOK L c.name && decide (c.nodes.length ≤ 99) &&
+  c.nodes.all (fun nm => (lookupNode g.nodes nm).isSome) &&
+  (c.centreSpecified == 0 ||
+    (c.centreSpecified == 1 && match c.centre with | .at x y => fitsC 2 s x && fitsC 2 s y | _ => false)) &&
+  (c.defaultSurface || match c.surface with | some z => fitsC 2 s z | none => false) &&
+  orientationOK nodes' c
+
+def wellOK (s : Rat) (w : GWell) : Bool :=
+  w.name.length == 5 && noNewline w.name && !w.pos.isEmpty &&
+  w.pos.all fun p => fitsC 1 s p.1 && fitsC 1 s p.2.1 && fitsC 1 s p.2.2
+
+def nodup (l : List Str) : Bool := decide l.Nodup
+
+/-- hypotheses of `geo_roundtrip`, except `LayerCentresKept` -/
+def WF (g : Geo) : Bool :=
+  headerOK g.hdr &&
+  (match colnameLength g.hdr.convention, layernameLength g.hdr.convention with
+   | .ok L, .ok LL =>
+     let s := scaleOf g
+     let nodes' := g.nodes.map (canonNode s)
+     g.nodes.all (fun n => nameOK L n.name && fitsC 2 s n.x && fitsC 2 s n.y) &&
+     nodup (g.nodes.map (·.name)) &&
+     g.columns.all (columnOK L s g nodes') &&
+     nodup (g.columns.map (·.name)) &&
+     g.connections.all (fun k => (lookupColumn g.columns k.1).isSome && (lookupColumn g.columns k.2).isSome) &&
+     decide g.connections.Nodup &&
+     !g.layers.isEmpty &&
+     g.layers.all (fun l => nameOK LL l.name && fitsC 2 s l.bottom && fitsC 2 s l.centre) &&
+     nodup (g.layers.map (·.name)) &&
+     g.wells.all (wellOK s) &&
+     nodup (g.wells.map (·.name))
+   | _, _ => false)
+
+/-- rounding moves no surface across a layer boundary: every comparison the name lists make has
+    the same outcome in `g` and in `canonGeo g` -/
+def StableSurfaces (g : Geo) : Bool :=
+  let g' := canonGeo g
+  (g.columns.zip g'.columns).all fun (c, c') =>
+    (g.layers.zip g'.layers).all fun (l, l') =>
+      (match c.surface, c'.surface with
+       | some z, some z' =>
+         (decide (z.toRat > l.bottom.toRat) == decide (z'.toRat > l'.bottom.toRat)) &&
+         (decide (z.toRat ≤ l.top.toRat) == decide (z'.toRat ≤ l'.top.toRat))
+       | _, _ => false)
+
 
 end Model.GeoFile
